@@ -26,6 +26,11 @@ func newSrvWorld(r *Run, cfg srvCfg) *srvWorld {
 	strat := r.drawStrategy()
 	w.setup()
 	w.generate()
+	if w.bigK {
+		// dozens of batches in flight at once: a library that keeps a timer per
+		// batch legitimately takes K times the steps per clock advance
+		r.Sim.MaxStep += 2000 * w.K
+	}
 	s := w.sample().(map[string]any)
 	s["strategy"] = strat
 	r.Sample = s
